@@ -95,39 +95,42 @@ Proof. exact no_other_names. Qed.
 Print Assumptions c02_no_other_names.
 
 (* ---- the authenticated (NORMALISED) user, on EVERY credential path.  A certificate request can
-   authenticate with a name whose spelling the client chose in four ways (Model/CertgenIdent.v credkind):
+   authenticate with a name whose spelling the client chose in five ways (Model/CertgenIdent.v credkind):
    the session cookie of a login by form or by Basic header, the Basic header on the request itself, a
-   client certificate of this keymaster.  Whatever the way k, the name as typed, the password, the
+   client certificate of this keymaster, an IP-restricted automation certificate.  Whatever the way k, the name as typed, the password, the
    password backend, the Okta filter, the normalisation switch, the server and the rest of the request:
    if a certificate is issued then the credential path admitted exactly account_of k typed - the
    normalisation (reprocessUsername) of the typed name; a certificate's common name as it stands -, the
    certificate names exactly that account, the URL segment is that account byte for byte (NOT the name
    as typed, unless that is the account), the certified key is the submitted one, and on the password
    paths the backend accepted the password for THAT account. *)
-Theorem c02_user_is_normalised : forall okta disable backend expand st0 q0 now k typed pw u c,
-  ident_certgen okta disable backend expand st0 q0 now k typed pw = Issued u c ->
-  admitted okta disable backend k typed pw = Some (account_of okta disable k typed) /\
+Theorem c02_user_is_normalised : forall okta disable backend automation expand st0 q0 now k typed pw u c,
+  ident_certgen okta disable backend automation expand st0 q0 now k typed pw = Issued u c ->
+  admitted okta disable backend automation k typed pw = Some (account_of okta disable k typed) /\
   d_names c = [account_of okta disable k typed] /\
   q_target q0 = account_of okta disable k typed /\
   (exists ed, q_key q0 = Some (d_key c, ed)) /\
-  (k <> KCert -> backend (account_of okta disable k typed) pw = true).
+  (password_kind k = true -> backend (account_of okta disable k typed) pw = true) /\
+  (k = KIpCert -> automation (account_of okta disable k typed) = true).
 Proof. exact ident_issued. Qed.
 Print Assumptions c02_user_is_normalised.
 
-(* forall credential kind: the identity checkAuth returns = normalise (typed name), and on the password
-   paths it is the one account the backend was asked about and accepted the password for *)
-Theorem c02_identity_is_account : forall okta disable backend k typed pw id,
-  admitted okta disable backend k typed pw = Some id ->
+(* forall credential kind: the identity checkAuth returns = normalise (typed name) (a certificate: its common
+   name), on the password paths it is the one account the backend was asked about and accepted the password
+   for, and an IP-restricted certificate's name is byte for byte a configured automation user *)
+Theorem c02_identity_is_account : forall okta disable backend automation k typed pw id,
+  admitted okta disable backend automation k typed pw = Some id ->
   id = account_of okta disable k typed /\
-  (k <> KCert -> p_asked (cred_path okta disable backend k typed pw) = Some id /\ backend id pw = true).
+  (password_kind k = true -> p_asked (cred_path okta disable backend automation k typed pw) = Some id /\ backend id pw = true) /\
+  (k = KIpCert -> automation id = true).
 Proof. exact path_identity. Qed.
 Print Assumptions c02_identity_is_account.
 
 (* a request for any other spelling than the account - the name as typed, when that is not the
    normalised one - is refused on every credential path *)
-Theorem c02_other_spelling_refused : forall okta disable backend expand st0 q0 now k typed pw,
+Theorem c02_other_spelling_refused : forall okta disable backend automation expand st0 q0 now k typed pw,
   q_target q0 <> account_of okta disable k typed ->
-  exists code, ident_certgen okta disable backend expand st0 q0 now k typed pw = Refused code.
+  exists code, ident_certgen okta disable backend automation expand st0 q0 now k typed pw = Refused code.
 Proof. exact ident_other_spelling_refused. Qed.
 Print Assumptions c02_other_spelling_refused.
 
@@ -211,10 +214,10 @@ Example c02_ident_example :
   let st0 := case_server_at 0 [sPassword] 0 in
   let q0 t := case_req (sh NoCr t) 0 0 in
   account_of (Some okta_at_filter) false KBasic typed = n_alice /\
-  (match ident_certgen (Some okta_at_filter) false backend no_expand st0 (q0 1) 0%Z KBasic typed [112] with
+  (match ident_certgen (Some okta_at_filter) false backend (fun _ => false) no_expand st0 (q0 1) 0%Z KBasic typed [112] with
    | Issued _ d => d_names d = [n_alice] | Refused _ => False end) /\
-  ident_certgen (Some okta_at_filter) false backend no_expand st0 (q0 5) 0%Z KBasic typed [112] = Refused 403 /\
-  ident_certgen (Some okta_at_filter) false backend no_expand st0 (q0 1) 0%Z KBasic typed [113] = Refused 401.
+  ident_certgen (Some okta_at_filter) false backend (fun _ => false) no_expand st0 (q0 5) 0%Z KBasic typed [112] = Refused 403 /\
+  ident_certgen (Some okta_at_filter) false backend (fun _ => false) no_expand st0 (q0 1) 0%Z KBasic typed [113] = Refused 401.
 Proof. vm_compute. repeat split; reflexivity. Qed.
 
 Example c02_alice : normalise None false n_Alice = n_alice /\ run_case 4 48 0 0 0 = 0 /\ run_case 4 8 0 0 0 = 6.
